@@ -29,18 +29,18 @@ Qed.
 
 (* ---------------- decoding an own encoding ---------------- *)
 
-Lemma counted_spec f buf tail extra : lenN buf <= 65535 ->
+Lemma counted_spec f buf tail extra : lenN buf <= 65535 -> extra <= lenN tail ->
   ss_unmarshal_counted f ([f] ++ le16 (lenN buf) ++ buf ++ tail) extra
   = Ok (mk_ss f (lenN buf) buf, lenN buf + 3 + extra).
 Proof.
-  intros Hlen. unfold ss_unmarshal_counted.
+  intros Hlen Hextra. unfold ss_unmarshal_counted.
   assert (L : lenN ([f] ++ le16 (lenN buf) ++ buf ++ tail) = 3 + lenN buf + lenN tail).
   { rewrite !lenN_app, lenN_one. unfold le16. rewrite lenN_le_bytes. lia. }
   rewrite L. destruct (N.ltb_spec (3 + lenN buf + lenN tail) 3); [lia|].
   rewrite (go_slice_at [f] (le16 (lenN buf))); [|reflexivity|unfold le16; now rewrite lenN_le_bytes].
   cbn [bind]. unfold le16 at 1. rewrite go_le_uint_exact. cbn [bind].
   change (2 ^ (8 * N.of_nat 2)) with 65536. rewrite N.mod_small by lia.
-  destruct (N.ltb_spec (3 + lenN buf + lenN tail) (lenN buf + 3)); [lia|].
+  destruct (N.ltb_spec (3 + lenN buf + lenN tail) (lenN buf + 3 + extra)); [lia|].
   replace ([f] ++ le16 (lenN buf) ++ buf ++ tail) with (([f] ++ le16 (lenN buf)) ++ buf ++ tail)
     by now rewrite <- app_assoc.
   rewrite (go_slice_at ([f] ++ le16 (lenN buf)) buf); [reflexivity| |reflexivity].
@@ -81,7 +81,7 @@ Proof.
     change ([1] ++ le16 (lenN buf) ++ buf ++ suffix) with (1 :: (le16 (lenN buf) ++ buf ++ suffix)) at 1.
     rewrite head_dispatch. cbn [N.eqb Pos.eqb].
     change (1 :: le16 (lenN buf) ++ buf ++ suffix) with ([1] ++ le16 (lenN buf) ++ buf ++ suffix).
-    rewrite counted_spec by exact Hmax. do 2 f_equal.
+    rewrite counted_spec; [|exact Hmax|rewrite ?lenN_app, ?lenN_one; lia]. do 2 f_equal.
     rewrite !lenN_app, lenN_one. unfold le16. rewrite lenN_le_bytes. lia.
   - eexists. split; [reflexivity|]. rewrite <- !app_assoc.
     change ([2] ++ buf ++ [0] ++ suffix) with (2 :: (buf ++ [0] ++ suffix)) at 1.
@@ -95,7 +95,7 @@ Proof.
     rewrite head_dispatch. cbn [N.eqb Pos.eqb].
     change (3 :: le16 (lenN buf) ++ buf ++ [0] ++ suffix)
       with ([3] ++ le16 (lenN buf) ++ buf ++ [0] ++ suffix).
-    rewrite counted_spec by exact Hmax. do 2 f_equal.
+    rewrite counted_spec; [|exact Hmax|rewrite ?lenN_app, ?lenN_one; lia]. do 2 f_equal.
     rewrite !lenN_app, !lenN_one. unfold le16. rewrite lenN_le_bytes. lia.
   - eexists. split; [reflexivity|]. rewrite <- !app_assoc.
     change ([4] ++ buf ++ [0] ++ suffix) with (4 :: (buf ++ [0] ++ suffix)) at 1.
@@ -107,7 +107,7 @@ Proof.
     change ([5] ++ le16 (lenN buf) ++ buf ++ suffix) with (5 :: (le16 (lenN buf) ++ buf ++ suffix)) at 1.
     rewrite head_dispatch. cbn [N.eqb Pos.eqb].
     change (5 :: le16 (lenN buf) ++ buf ++ suffix) with ([5] ++ le16 (lenN buf) ++ buf ++ suffix).
-    rewrite counted_spec by exact Hmax. do 2 f_equal.
+    rewrite counted_spec; [|exact Hmax|rewrite ?lenN_app, ?lenN_one; lia]. do 2 f_equal.
     rewrite !lenN_app, lenN_one. unfold le16. rewrite lenN_le_bytes. lia.
 Qed.
 
@@ -144,7 +144,7 @@ Proof.
   unfold ss_unmarshal_counted. destruct (N.ltb_spec (lenN b) 3) as [|H3]; [discriminate|].
   destruct (go_slice_ok_len b 1 3) as [lb [Hlb Hl]]; [lia|lia|]. rewrite Hlb. cbn [bind].
   destruct (go_le_uint_ok 2 lb) as [len Hlen]; [unfold lenN in Hl; lia|]. rewrite Hlen. cbn [bind].
-  destruct (N.ltb_spec (lenN b) (len + 3)); [discriminate|].
+  destruct (N.ltb_spec (lenN b) (len + 3 + extra)); [discriminate|].
   destruct (go_slice_ok_len b 3 (3 + len)) as [body [Hbody _]]; [lia|lia|]. rewrite Hbody. discriminate.
 Qed.
 
@@ -174,33 +174,31 @@ Lemma format_codes_tie :
   c06_fmt_nul_ascii = 4 /\ c06_fmt_variable_block = 5.
 Proof. repeat split; reflexivity. Qed.
 
-(* The reported count never exceeds the input, except for format 0x03, whose terminator is counted
-   without being required to be present. *)
+(* The reported count never exceeds the input (format 0x03 requires the terminator it counts, after
+   "fix: SMB_STRING.Unmarshal (format 0x03) requires the null terminator it counts as consumed"). *)
 Theorem string_consumed_bound input s n :
-  smb_string_unmarshal input = Ok (s, n) -> ss_fmt s <> 3 -> n <= lenN input.
+  smb_string_unmarshal input = Ok (s, n) -> n <= lenN input.
 Proof.
   destruct input as [|f l]; [discriminate|]. rewrite head_dispatch.
-  assert (C : forall extra, ss_unmarshal_counted f (f :: l) extra = Ok (s, n) ->
-                            ss_fmt s = f /\ n <= lenN (f :: l) + extra).
+  assert (C : forall extra, ss_unmarshal_counted f (f :: l) extra = Ok (s, n) -> n <= lenN (f :: l)).
   { intros extra. unfold ss_unmarshal_counted. destruct (lenN (f :: l) <? 3); [discriminate|].
     destruct (go_slice (f :: l) 1 3) as [lb| |]; try discriminate. cbn [bind].
     destruct (go_le_uint 2 lb) as [len| |]; try discriminate. cbn [bind].
-    destruct (N.ltb_spec (lenN (f :: l)) (len + 3)); [discriminate|].
+    destruct (N.ltb_spec (lenN (f :: l)) (len + 3 + extra)); [discriminate|].
     destruct (go_slice (f :: l) 3 (3 + len)) as [body| |]; try discriminate. cbn [bind].
-    intros E. inversion E; subst. cbn [ss_fmt]. split; [reflexivity|lia]. }
+    intros E. inversion E; subst. lia. }
   assert (Z : ss_unmarshal_nul f (f :: l) = Ok (s, n) -> n <= lenN (f :: l)).
   { unfold ss_unmarshal_nul. destruct (find_nul (skipn 1 (f :: l)) 1) as [p|] eqn:E; [|discriminate].
     apply find_nul_bound in E. cbn [skipn] in E. rewrite lenN_cons.
     destruct (go_slice (f :: l) 1 p) as [body| |]; try discriminate. cbn [bind].
     intros E2. inversion E2; subst. lia. }
-  destruct (N.eqb_spec f 1); [intros E _; apply C in E; lia|].
-  destruct (N.eqb_spec f 2); [intros E _; now apply Z|].
-  destruct (N.eqb_spec f 3); [intros E Hf; apply C in E; destruct E; congruence|].
-  destruct (N.eqb_spec f 4); [intros E _; now apply Z|].
-  destruct (N.eqb_spec f 5); [intros E _; apply C in E; lia|discriminate].
+  destruct (f =? 1); [apply C|]. destruct (f =? 2); [exact Z|].
+  destruct (f =? 3); [apply C|]. destruct (f =? 4); [exact Z|].
+  destruct (f =? 5); [apply C|discriminate].
 Qed.
 
-Lemma string_fmt3_overrun : smb_string_unmarshal [3; 0; 0] = Ok (mk_ss 3 0 [], 4).
+(* the input that used to report 4 bytes consumed out of 3 is refused *)
+Lemma string_fmt3_no_overrun : smb_string_unmarshal [3; 0; 0] = Err.
 Proof. vm_compute. reflexivity. Qed.
 
 (* ---------------- SMB_RESUME_KEY ---------------- *)
